@@ -27,8 +27,9 @@ class ParserInstance:
                 continue
             rel = b.name[len(pre):] if b.name.startswith(pre) else b.name
             if not b.from_generated():
-                if rel.startswith("<Parser as ParserCallbacks>::") or rel.startswith("<Parser<'a> as ParserCallbacks<'a>>::"):
-                    self.user[rel.split(">::", 1)[1]] = b
+                mcb = re.match(r"^<(?:[\w:]*::)?Parser(?:<'a>)? as (?:[\w:]*::)?ParserCallbacks(?:<'a>)?>::(\w+)$", rel)
+                if mcb:
+                    self.user[mcb.group(1)] = b
                 continue
             m = re.match(r"Parser::(rule_[A-Za-z0-9_]+)(::.*)?$", rel)
             if m:
